@@ -21,6 +21,8 @@ type request struct {
 	Desync                bool   // HTTP itself makes the connection unusable / answers more than once afterwards
 	Variant               string
 	Kind                  string // kind of the correct message the mutation started from
+	OneFrame              bool   // on a verified session: the whole message travels as ONE frame, whatever its length
+	MayClose              bool   // the session layer may answer a framing violation by closing (no panic, still serving)
 }
 
 func (r *request) bytes() []byte {
@@ -852,6 +854,23 @@ func (cs *connState) buildGet(w *world, d caseDesc, rnd *rand.Rand) *request {
 	arg := d.Arg
 	t := w.target(arg)
 	rq := &request{Method: "GET", Kind: "get"}
+	if d.Class == "frame-size" {
+		// a correctly sealed frame that is longer than the 1024 bytes the specification allows: a valid request padded
+		// with a header, travelling as ONE frame.  The accessory may serve it or close the connection; it may not
+		// panic, die or stop serving.
+		sizes := []int{1025, 1026, 1500, 2047, 2048, 2066, 2067, 2100, 4096, 16384, 65535}
+		n := sizes[arg%len(sizes)]
+		target := fmt.Sprintf("/characteristics?id=%d.%d", t.AID, t.IID)
+		if d.EP == "accessories" {
+			target = "/accessories"
+		}
+		head := fmt.Sprintf("GET %s HTTP/1.1\r\nHost: accessory.local\r\nX-Pad: ", target)
+		pad := n - len(head) - 4
+		rq.Raw = []byte(head + strings.Repeat("p", pad) + "\r\n\r\n")
+		rq.OneFrame, rq.MayClose = true, true
+		rq.Variant = fmt.Sprintf("a valid GET sealed as one frame of %d plaintext bytes", n)
+		return rq
+	}
 	switch d.EP {
 	case "characteristics-get":
 		if d.Class == "unverified-request" {
